@@ -7,6 +7,7 @@ import numpy as np
 from harness import common, nsutil
 from harness import smcbatch as sb
 from harness import smcdrive as sd
+from harness import smcreplay as sr_
 
 GEN = ["logsumexp", "effective_sample_size", "unnormalized_log_weights", "log_weights", "compute_weights",
        "current_target_efficiency"]
@@ -16,7 +17,8 @@ def run(ctx):
     import mpmath as mp
     mp.mp.dps = 40
     common.standard_prove(ctx, gen_targets=GEN)
-    ctx.rule = ("adaptive SMC runs (scalar and ramped targets, tolerances 1e-9..5e-2, min-step floors, peaked likelihoods) from "
+    ctx.rule = ("adaptive SMC runs (scalar and ramped targets, tolerances 1e-9..5e-2, min-step floors, peaked likelihoods; plus float32 populations with "
+                "very peaked likelihoods and tolerances 1e-8..1e-10, checked numerically only) from "
                 "random.Random(VERIF_SEED); each iteration = one case: the stored population before the step, the temperature taken, "
                 "the target in force; ESS recomputed in mpmath at beta and beta+tol; every determine_beta call is also replayed "
                 "bit-exactly (queries and result) through the Coq model; non-trivial = the step is interior (beta < 1)")
@@ -29,7 +31,22 @@ def run(ctx):
     ev = translate.make_evaluator(irall)
     tie = {"effective_sample_size(log_weights)": [True, ""], "current_target_efficiency": [True, ""]}
     nsteps = 0
-    for r in runs:
+    # populations in single precision with a stated tolerance far below float32's epsilon: the temperature is a Python float, so the
+    # stated tolerance (not the resolution of the weights) bounds how much of an admissible step may be given away
+    f32 = []
+    for j in range(ctx.scale(6, 30)):
+        f32.append(dict(kind="base", ns=["torch", "numpy", "jax"][j % 3], width="float32", N=[16, 32, 12][j % 3], dims=1 + j % 2,
+                        s=[1e-3, 3e-4, 3e-3][(j // 3) % 3], c=[0.0, 1.0][j % 2], prior="normal", seed=ctx.rng.randrange(1 << 30),
+                        mcmc_steps=1, ckpt="none",
+                        sample_kwargs=dict(adaptive=True, beta_tolerance=[1e-9, 1e-10, 1e-8][j % 3],
+                                           target_efficiency=[0.5, (0.3, 0.7)][(j // 2) % 2])))
+    runs32 = [sr_.do_run(c) for c in f32]
+    for r in runs32:
+        if r.error is not None:
+            ctx.violation(f"single-precision-run-fails:{str(r.error).split('(')[0][:60]}", f"adaptive run on a float32 population raised {r.error}", {"cfg": r.cfg})
+    for r in list(runs) + runs32:
+        single = r.cfg.get("width") == "float32"
+        slack = 3e-5 if single else 1e-9     # ESS/N as the implementation evaluates it (float32 rounding) vs the exact value
         if r.error is not None or r.history is None:
             continue
         cfg, sk = r.cfg, r.cfg["sample_kwargs"]
@@ -47,7 +64,7 @@ def run(ctx):
                 continue
             nsteps += 1
             interior = beta_t < 1.0
-            ctx.count((cfg["seed"], t), interior, kind="interior" if interior else "full-step")
+            ctx.count((cfg["seed"], t), interior, kind=("float32/" if single else "") + ("interior" if interior else "full-step"))
             eff = lambda b: sb.mp_step_quantities(pop, b)[0] / N
             e_t = eff(beta_t)
             floor_forced = beta_t <= beta_prev + ms + 1e-15 and ms > 0
@@ -56,18 +73,18 @@ def run(ctx):
                     "eff(beta)": e_t}
             if len(ctx.samples) < 3 and interior:
                 ctx.sample({k: case[k] for k in ("iteration", "beta_prev", "beta", "target", "eff(beta)")})
-            if not floor_forced and not progress_forced and e_t < target - 1e-9:
+            if not floor_forced and not progress_forced and e_t < target - slack:
                 ctx.violation(f"target-missed:{cfg['seed']}:{t}", f"ESS/N at the chosen temperature {e_t} < target {target} (no floor in force)", case)
             if interior:
                 e_up = eff(min(1.0, beta_t + tol))
-                if e_up >= target + 1e-9:
+                if e_up >= target + slack:
                     case["eff(beta+tol)"] = e_up
                     ctx.violation(f"not-maximal:{cfg['seed']}:{t}", f"ESS/N at beta+tol = {e_up} still >= target {target}: a larger step was admissible", case)
             elif not floor_forced and beta_prev + ms < 1.0:
-                if eff(1.0) < target - 1e-9 and (1.0 - beta_prev) > tol:
+                if eff(1.0) < target - slack and (1.0 - beta_prev) > tol:
                     ctx.violation(f"full-step-misses-target:{cfg['seed']}:{t}", f"jumped to 1 with ESS/N {eff(1.0)} < target {target}", case)
             # --- tie: translated kernels vs implementation on this population
-            if irall and t < 3:
+            if irall and t < 3 and not single:
                 try:
                     from aspire.utils import effective_sample_size
                     ll, lp, lq, b0 = sb.pop_arrays(pop)
